@@ -11,8 +11,9 @@
    [dflt e].  [s] = quad set + known graph names; [a] is any list that is the
    same *set* of quads as the store content.  [scope e o] says that the front
    end has named graphs or the operation needs none (a plain Graph is a store
-   with one graph).  [op_kf] is the known-finding trigger (only F10i is left:
-   USING NAMED does not restrict the WHERE dataset; it can fire for ModifyW only), [kinv] the store invariant "every graph
+   with one graph).  [op_kf] is the known-finding trigger: only F10l is left (a given solution
+   list with a repeated solution: the hash join at the top of every update WHERE
+   clause de-duplicates it), [kinv] the store invariant "every graph
    holding a quad is known". *)
 From Coq Require Import Permutation.
 From RV Require Import Update.Model Update.Proofs Update.Ops Update.Where Update.Seq.
@@ -20,9 +21,26 @@ Local Open Scope N_scope.
 
 (* The checker the correspondence run evaluates on rdflib's answers accepts the
    model on every well-formed case outside the known-finding regions. *)
-Theorem C10_spec_ok_model : forall c, wf c -> kf c = 0 -> spec_ok c (model_obs c) = true.
+(* _partial: [in_model_where c] is a FRAGMENT, not well-formedness.  What is missing for
+   the full statement: an operation whose solutions the model computes (ModifyW,
+   DeleteWhereW) in a later position of the request, or with blank-node labels in
+   its templates, or with a WHERE outside BGP / Join / Union / GRAPH, and requests
+   with a CREATE without SILENT.  (For those: the single-step theorems
+   C10_modify_where / C10_delete_where_in_model at any position and with any
+   template, and the conformance run.)  No trigger is left: kf c = 0 always. *)
+Theorem C10_spec_ok_model_partial : forall c,
+  wf c -> in_model_where c -> kf c = 0 -> spec_ok c (model_obs c) = true.
 Proof. exact spec_ok_model. Qed.
+Print Assumptions C10_spec_ok_model_partial.
+
+(* full strength for requests all of whose solution lists are given (no ModifyW,
+   DeleteWhereW, non-silent CREATE): only genuine well-formedness is assumed *)
+Theorem C10_spec_ok_model : forall c,
+  wf c -> forallb no_where (c_ops c) = true -> kf c = 0 -> spec_ok c (model_obs c) = true.
+Proof. exact spec_ok_model_given. Qed.
 Print Assumptions C10_spec_ok_model.
+
+
 
 (* ... and what acceptance means: no failure, every quad's graph is known, and
    the final quads are the section-3 result up to a renaming of terms >= 1000
@@ -96,12 +114,11 @@ Print Assumptions C10_modify.
    merge graph; WITH only without USING / USING NAMED; every named graph stays
    visible).  [s_omega] = the bottom-up algebra (SPARQL 1.1 section 18) over the
    query dataset SPARQL 1.1 Update 3.1.3 prescribes.  Outside the regions of
-   F10i (USING NAMED does not restrict the dataset) they are the same multiset,
+   every trigger region (none is left) they are the same multiset,
    for every store without duplicates (and without C04's two boolean ids). *)
-Theorem C10_where_solutions : forall e k w ud un d i p a,
-  walg p = true -> (forall names, Sparql.Agreement.frag names [] p = true) ->
+Theorem C10_where_solutions : forall e w ud un p a,
+  (forall names, Sparql.Agreement.frag names [] p = true) ->
   NoDup a -> terms_nb a ->
-  scope e (ModifyW w ud un d i p) -> op_kf e k (ModifyW w ud un d i p) = 0 ->
   Permutation (m_omega e w ud un p a) (s_omega e w ud un p a).
 Proof. exact where_solutions. Qed.
 Print Assumptions C10_where_solutions.
@@ -149,12 +166,12 @@ Proof. exact step_delete_where. Qed.
 Print Assumptions C10_delete_where_in_model.
 
 (* a whole request (the computed WHERE in first position): model = specification *)
-Theorem C10_request : forall c, wf c -> kf c = 0 ->
+Theorem C10_request_partial : forall c, wf c -> in_model_where c -> kf c = 0 ->
   has_dataset (c_env c) = true \/ forallb (fun o => negb (needs_dataset o)) (c_ops c) = true ->
   exists s', eval_from (c_env c) 0 (c_ops c) (init_state c) = Ok s'
     /\ qseteq (quads s') (spec_from (c_env c) 0 (c_ops c) (c_quads c)) /\ kinv s'.
 Proof. exact request_correct. Qed.
-Print Assumptions C10_request.
+Print Assumptions C10_request_partial.
 
 (* The loop as it was before the fix of F5 (per solution: delete, then insert)
    does not have the property: swapping ?s p ?o -> ?o p ?s on the 2-cycle
@@ -225,7 +242,7 @@ Print Assumptions C10_move.
 (* Graphs the operation does not name stay equal (data and management
    operations: [op_graphs] lists the graphs named). *)
 Theorem C10_untouched : forall e k o a c,
-  match o with Modify _ _ _ _ _ _ | ModifyW _ _ _ _ _ _ | DeleteWhere _ _ | DeleteWhereW _ => False | _ => True end ->
+  match o with Modify _ _ _ _ _ _ | ModifyS _ _ _ _ _ _ | ModifyW _ _ _ _ _ _ | DeleteWhere _ _ | DeleteWhereW _ => False | _ => True end ->
   ~ op_graphs e o c -> forall t, In (t, c) (spec_op e k o a) <-> In (t, c) a.
 Proof. exact spec_untouched_data. Qed.
 Print Assumptions C10_untouched.
@@ -241,23 +258,29 @@ Print Assumptions C10_untouched_modify.
 (* Fresh blank nodes.  [fresh k i x] is the node for label x in solution i of
    operation k (one node per label and solution, shared by all blocks of the
    template: [s_quads] and the model both instantiate with [fresh k i]).
+   SIZE BOUND: the supply [fresh k i x = 1000 + k*2^24 + i*2^16 + x] is injective only for
+   at most 256 solutions per operation and labels below 65536 (bounds in the statement;
+   [op_bounded] carries them for the preservation theorem; beyond them names of
+   operation k collide with those of operation k+1).  Specification and model use the
+   same naming function, so model = spec says nothing about freshness: freshness is
+   THIS theorem, and the checker compares with rdflib up to renaming.
    Supply hypothesis [older (window k) a]: every term of the store is below the
    window of operation k.  Then the node is distinct from every term of D, and
    different (solution, label) pairs get different nodes. *)
-Theorem C10_fresh_bnodes : forall k a, older (window k) a -> forall i x, i < 256 -> x < 65536 ->
+Theorem C10_fresh_bnodes_upto_256_solutions_65536_labels : forall k a, older (window k) a -> forall i x, i < 256 -> x < 65536 ->
   (forall q, In q a -> ~ In (fresh k i x) (triple_terms (fst q)))
   /\ forall i' x', i' < 256 -> x' < 65536 -> fresh k i x = fresh k i' x' -> i = i' /\ x = x'.
 Proof. exact fresh_bnodes. Qed.
-Print Assumptions C10_fresh_bnodes.
+Print Assumptions C10_fresh_bnodes_upto_256_solutions_65536_labels.
 
 (* ... and the stores the hypothesis allows include every store a request
    reaches: if the constants and bound values of operation k are terms in use
    before it (at most 256 solutions, labels below 65536), the hypothesis holds
    again for operation k+1. *)
-Theorem C10_fresh_supply_preserved : forall e k o a,
+Theorem C10_fresh_supply_preserved_upto_256_solutions : forall e k o a,
   op_bounded (window k) o -> older (window k) a -> older (window (k + 1)) (spec_op e k o a).
 Proof. exact older_step. Qed.
-Print Assumptions C10_fresh_supply_preserved.
+Print Assumptions C10_fresh_supply_preserved_upto_256_solutions.
 
 (* the switch is irrelevant to every evaluator: writes outside GRAPH go to the
    real default graph whatever it says *)
@@ -297,12 +320,12 @@ Example C10_nonvacuous :
               c_ops := [ModifyW None [] [] (Some swap_del) (Some swap_ins) pat;
                         DeleteData [(1, 3, 2)] [];
                         Copy false DDefault (DIri 5); Clear false GDefault] |} in
-  wf c /\ kf c = 0 /\ in_scope (c_env c) (c_ops c) = true
+  wf c /\ in_model_where c /\ kf c = 0 /\ in_scope (c_env c) (c_ops c) = true
   /\ spec_ok c (model_obs c) = true
   /\ snd (fst (model_obs c)) = [1; 5].
 Proof.
-  simpl. split.
-  - split; [intros q [<-|[<-|[<-|[]]]]; simpl; auto|].
+  simpl. split; [intros q [<-|[<-|[<-|[]]]]; simpl; auto|]. split.
+  - unfold in_model_where. simpl.
     split; [split; [split; [reflexivity|intros; reflexivity]|split; reflexivity]|].
     split; [|reflexivity]. intros _. split.
     + repeat constructor; simpl; intuition congruence.
